@@ -789,12 +789,13 @@ func (rs *rowStore) removeOldFiles(stop <-chan interface{}) {
 					continue
 				}
 				rs.t.db.waitForBackupToFinish(stop)
+				// iterations register under the file store's full path
+				name := filepath.Join(rs.opts.dir, filename)
 				rs.mx.RLock()
-				okayToRemove := rs.iterationsInProgress[filename] == 0 // don't remove file if we're iterating on it
+				okayToRemove := rs.iterationsInProgress[name] == 0 // don't remove file if we're iterating on it
 				rs.mx.RUnlock()
 				if okayToRemove {
 					// Okay to delete now
-					name := filepath.Join(rs.opts.dir, filename)
 					rs.t.log.Debugf("Removing old file %v", name)
 					err := os.Remove(name)
 					if err != nil {
